@@ -256,6 +256,112 @@ async def aslow(self, *a, **kw):
 RecMixin.snap = snap
 RecMixin.aslow = aslow
 
+# a callback of one machine fires an event on a model of ANOTHER machine (another restored copy, or the original): the
+# harness names the target while it drives a forwarding phase; idle otherwise
+FORWARD = {'target': None, 'ev': 'e0'}
+
+
+def _fwd_ready(self, a, kw, name):
+    t = FORWARD['target']
+    if t is None or POKE_BUDGET[0] <= 0:
+        self._note(name, a, kw, 'idle')
+        return None
+    POKE_BUDGET[0] -= 1
+    POKES[0] += 1
+    return t
+
+
+def fwd(self, *a, **kw):
+    t = _fwd_ready(self, a, kw, 'fwd')
+    if t is None:
+        return
+    try:
+        r = getattr(t, FORWARD['ev'])(7, k=1)
+        if inspect.isawaitable(r):
+            r.close()
+            r = 'coroutine'
+        out = r if isinstance(r, str) else bool(r)
+    except Exception as e:   # noqa: BLE001
+        out = type(e).__name__
+    self._note('fwd', a, kw, [out, _peer_state(t)])
+
+
+async def afwd(self, *a, **kw):
+    t = _fwd_ready(self, a, kw, 'afwd')
+    if t is None:
+        return
+    try:
+        out = bool(await getattr(t, FORWARD['ev'])(7, k=1))
+    except Exception as e:   # noqa: BLE001
+        out = type(e).__name__
+    self._note('afwd', a, kw, [out, _peer_state(t)])
+
+
+# queue an event for the peer model behind the running one, then remove the peer from the machine ("all queued events
+# of that model will be removed"); on an unqueued machine the peer's event runs at once and the peer is removed after it
+def _qrm_ready(self, a, kw, name):
+    d = self.__dict__
+    peer = d.get('peer')
+    mach = machine_of(self) if peer is not None else None
+    if peer is None or peer is self or mach is None or POKE_BUDGET[0] <= 0 or len(mach.models) <= 1 \
+            or not any(m is peer for m in mach.models):
+        self._note(name, a, kw, 'skip')
+        return None
+    POKE_BUDGET[0] -= 1
+    POKES[0] += 1
+    return peer, mach
+
+
+def _qrm_remove(self, peer, mach, out):
+    try:
+        mach.remove_model(peer)
+        out.append('removed')
+    except Exception as e:   # noqa: BLE001
+        out.append(type(e).__name__)
+    for o in list(mach.models) + [self, peer]:
+        if o.__dict__.get('peer') is peer:
+            o.__dict__['peer'] = None
+    peer.__dict__['peer'] = None
+    out.append(_peer_state(peer))
+
+
+def qrm(self, *a, **kw):
+    t = _qrm_ready(self, a, kw, 'qrm')
+    if t is None:
+        return
+    peer, mach = t
+    out = []
+    try:
+        r = getattr(peer, self.__dict__.get('poke_ev', 'e0'))(7, k=1)
+        if inspect.isawaitable(r):
+            r.close()
+            r = 'coroutine'
+        out.append(r if isinstance(r, str) else bool(r))
+    except Exception as e:   # noqa: BLE001
+        out.append(type(e).__name__)
+    _qrm_remove(self, peer, mach, out)
+    self._note('qrm', a, kw, out)
+
+
+async def aqrm(self, *a, **kw):
+    t = _qrm_ready(self, a, kw, 'aqrm')
+    if t is None:
+        return
+    peer, mach = t
+    out = []
+    try:
+        out.append(bool(await getattr(peer, self.__dict__.get('poke_ev', 'e0'))(7, k=1)))
+    except Exception as e:   # noqa: BLE001
+        out.append(type(e).__name__)
+    _qrm_remove(self, peer, mach, out)
+    self._note('aqrm', a, kw, out)
+
+
+RecMixin.fwd = fwd
+RecMixin.afwd = afwd
+RecMixin.qrm = qrm
+RecMixin.aqrm = aqrm
+
 
 class RecModel(RecMixin):
     def __init__(self, tag, sched, attr='state'):
@@ -477,6 +583,17 @@ def gen_case(rng, cls_name, tier):
     nm = rng.randint(1, 3)
     if poke_p and rng.random() < 0.8:
         nm = rng.randint(2, 3)
+    use_fwd = rng.random() < 0.2        # callbacks that fire events on ANOTHER machine (see forward_phase)
+    if use_fwd:
+        for _ in range(rng.randint(1, 2)):
+            if rng.random() < 0.6:
+                rng.choice(trans).setdefault(rng.choice(['before', 'after']), []).append('afwd' if asy else 'fwd')
+            else:
+                rng.choice(specs).setdefault('on_enter', []).append('afwd' if asy else 'fwd')
+    if rng.random() < (0.4 if (asy and opts['queued'] is True) else 0.1):
+        # queue an event for the peer behind the running one, then remove the peer
+        nm = rng.randint(2, 3)
+        rng.choice(trans).setdefault(rng.choice(['before', 'after']), []).append('aqrm' if asy else 'qrm')
     models = []
     for i in range(nm):
         kind = 'self' if (i == 0 and rng.random() < 0.3) else 'rec'
@@ -546,7 +663,12 @@ def gen_case(rng, cls_name, tier):
         if r < 0.45:
             roots[str(p)] = [rng.choice(['model', 'model', 'models', 'model+machine']), rng.randrange(3)]
         gens[str(p)] = rng.choice([1, 1, 1, 2, 2, 3])
-    return {'roots': roots, 'gens': gens, 'cls': cls_name, 'via_factory': rng.random() < 0.4, 'states': specs, 'paths': paths, 'initial': initial,
+    fwd_at = {}
+    if use_fwd:
+        fwd_at[str(rng.randrange(hl + 1))] = 'sibling'
+        if rng.random() < 0.5:
+            fwd_at[str(hl)] = 'original'
+    return {'fwd_at': fwd_at, 'roots': roots, 'gens': gens, 'cls': cls_name, 'via_factory': rng.random() < 0.4, 'states': specs, 'paths': paths, 'initial': initial,
             'events': events, 'transitions': trans, 'opts': opts, 'models': models, 'ctx_mode': ctx_mode,
             'model_ctx': model_ctx, 'history': hist, 'conts': conts, 'protocol': rng.choice([2, 3, 4, 5]),
             'plain': rng.random() < 0.3, 'lockprobe': locked and ctx_mode == 'default' and rng.random() < (0.5 if tier == 'quick' else 0.7)}
@@ -775,6 +897,29 @@ def recs(rig):
     return [list(m.__dict__.get('rec', [])) for m in rig.machine.models]
 
 
+def ever_view(C, K):
+    """state and recorded callbacks of every model the two rigs know in common, INCLUDING models that were removed
+    from the machines meanwhile (a removed model must not be touched by the machine any more, on either side)"""
+    vc, vk = [], []
+    for c, k in zip(C.models, K.models):
+        if c is None or k is None:
+            continue
+        for v, m in ((vc, c), (vk, k)):
+            d = m.__dict__
+            v.append([canon_state(d.get(d.get('attr_name', 'state'))), len(d.get('rec', []))])
+    return vc, vk
+
+
+def ever_recs(C, K, base=None):
+    out = ([], [])
+    for c, k in zip(C.models, K.models):
+        if c is None or k is None:
+            continue
+        out[0].append(list(c.__dict__.get('rec', [])))
+        out[1].append(list(k.__dict__.get('rec', [])))
+    return out
+
+
 def graph_styles(rig, model):
     """the styling dict of the model's graph (replaced by `reset_styling` whenever `_change_state` runs)"""
     if model is None:
@@ -849,6 +994,10 @@ def fingerprint(rig):
     if 'machine_context' in m.__dict__:
         o['machine_context'] = [type(c).__name__ + ':' + getattr(c, 'name', '') for c in m.__dict__['machine_context']]
     fp['opts'] = o
+    # the copy owns the same instance attributes as the original (an attribute missing from the copy's __dict__ silently
+    # falls back to a class attribute shared by every instance)
+    fp['instance_attributes'] = sorted(k for k in m.__dict__ if k not in ('rec', 'tag', 'sched', 'cnt', 'attr_name', 'peer',
+                                                                       'poke_ev', 'self_ev'))
     attr = m.model_attribute
     mods = []
     names = [e for e in top_events]
@@ -1203,6 +1352,35 @@ def known_signature(case, clause, detail=''):
     return None
 
 
+def forward_phase(case, p, C, K, TC, TK, what, fail, stats):
+    """events on the copy C whose callbacks (`fwd`/`afwd`) fire events on models of another machine TC (another restored copy,
+    or the original); the same on the un-pickled control K with target TK; everything observable must agree"""
+    items = [it for it in case['conts'].get(str(p), []) if it[0] == 'trigger'][:3]
+    evs = case['events']
+    fixed = [list(x.machine.models) for x in (C, K, TC, TK)]
+    bases = [[len(m.__dict__.get('rec', [])) for m in ms] for ms in fixed]
+    try:
+        for i, it in enumerate(items):
+            stats['forwarded'] = stats.get('forwarded', 0) + 1
+            FORWARD['ev'] = evs[i % len(evs)]
+            FORWARD['target'] = model_at(TC, it[1] + 1)
+            oc = apply_item(case, C, it)
+            FORWARD['target'] = model_at(TK, it[1] + 1)
+            ok_ = apply_item(case, K, it)
+            FORWARD['target'] = None
+            if oc != ok_ or model_states(C) != model_states(K) or model_states(TC) != model_states(TK):
+                fail('monitor', 'cross-machine', 'prefix %d forwarding to %s, step %d %r (target event %s): copy %r %r target %r; '
+                     'control %r %r target %r' % (p, what, i, it, FORWARD['ev'], oc, model_states(C), model_states(TC),
+                                                  ok_, model_states(K), model_states(TK)))
+                return
+    finally:
+        FORWARD['target'] = None
+    after = [[m.__dict__.get('rec', [])[b:] for m, b in zip(ms, bs)] for ms, bs in zip(fixed, bases)]
+    if after[0] != after[1] or after[2] != after[3]:
+        fail('monitor', 'cross-machine', 'prefix %d forwarding to %s: callbacks seen by copy/target %r / %r, by the controls %r / %r'
+             % (p, what, after[0], after[2], after[1], after[3]))
+
+
 def rig_of_copy(mach):
     """a rig for a machine obtained by unpickling only: recording contexts are found in its own tables"""
     mctx = [c for c in mach.__dict__.get('machine_context', []) if isinstance(c, RecCtx)]
@@ -1265,8 +1443,9 @@ def judge_midevent(case, p, sn, fail, stats, reqs=None):
     if model_states(K) != model_states(C):
         stats['midevent_skipped'] = stats.get('midevent_skipped', 0) + 1
         return
-    baseC = [len(r) for r in recs(C)]
-    baseK = [len(r) for r in recs(K)]
+    Cms, Kms = list(C.machine.models), list(K.machine.models)      # fixed: models may be removed on the way
+    baseC = [len(m.__dict__.get('rec', [])) for m in Cms]
+    baseK = [len(m.__dict__.get('rec', [])) for m in Kms]
     cont = [it for it in case['conts'].get(str(p), case['conts'].get('0', [])) if it[0] != 'remove_model']
     for i, it in enumerate(cont):
         mark = next(SEQ)
@@ -1287,8 +1466,8 @@ def judge_midevent(case, p, sn, fail, stats, reqs=None):
             fail('monitor', 'mid-event-contexts', '%s: continuation step %d %r: copy entered %r, control at rest %r'
                  % (tag, i, it, entC, entK), midevent_signature(case, scope_left, ident_left, 'contexts'))
             return
-    rC = [r[b:] for r, b in zip(recs(C), baseC)]
-    rK = [r[b:] for r, b in zip(recs(K), baseK)]
+    rC = [m.__dict__.get('rec', [])[b:] for m, b in zip(Cms, baseC)]
+    rK = [m.__dict__.get('rec', [])[b:] for m, b in zip(Kms, baseK)]
     if rC != rK:
         fail('monitor', 'mid-event-recordings', '%s: callbacks seen by the copy %r, by the control at rest %r' % (tag, rC, rK),
              midevent_signature(case, scope_left, ident_left, 'continuation'))
@@ -1411,6 +1590,14 @@ def run_case(case, want_requests=True):
         if stale:
             fail('monitor', 'stale-identity-key', 'prefix %d: the restored machine is keyed by identities of the '
                  'original: %s' % (p, stale[:4]))
+        # the object graph is preserved up to identities (aliasing), against the machine that was pickled last
+        if p == 0 or p == len(hist):       # (whole-graph walks: at the first and the last snapshot of a case)
+            al = alias_mismatch(src.machine, C.machine)
+            if al:
+                fail('monitor', 'aliasing', 'prefix %d: %s' % (p, al))
+            sh = shared_reachable(A.machine, C.machine)
+            if sh:
+                fail('monitor', 'shared-object', 'prefix %d: %s' % (p, sh))
         # (c) nothing mutable is shared
         shared = shared_objects(A, C)
         if shared:
@@ -1435,8 +1622,10 @@ def run_case(case, want_requests=True):
         lean_ok = True
         diverged = False
         lean_tabs = tabC0
-        baseC = [len(r) for r in recs(C)]
-        baseK = [len(r) for r in recs(K)]
+        Cms, Kms = list(C.machine.models), list(K.machine.models)  # fixed: models may be removed on the way
+        baseC = [len(m.__dict__.get('rec', [])) for m in Cms]
+        baseK = [len(m.__dict__.get('rec', [])) for m in Kms]
+        everC0, everK0 = ever_recs(C, K)
         for i, it in enumerate(cont):
             stats['cont_steps'] += 1
             mk = model_at(K, it[1]) if it[0] in ('trigger', 'may', 'remove_model', 'readd') else None
@@ -1462,6 +1651,9 @@ def run_case(case, want_requests=True):
             if ok_[0] == 'exc':
                 stats['exceptions'] += 1
             sc, sk = model_states(C), model_states(K)
+            evc, evk = ever_view(C, K)
+            if [e[0] for e in evc] != [e[0] for e in evk]:
+                sc, sk = sc + ['ever:'] + [e[0] for e in evc], sk + ['ever:'] + [e[0] for e in evk]
             stale_key = oc[:2] == ['exc', 'KeyError'] and oc[2:] == ['id-of-model'] and ok_[:2] != ['exc', 'KeyError']
             if oc != ok_ or sc != sk or rc != list(MODREC):
                 clause, sig = 'continuation', None
@@ -1517,8 +1709,13 @@ def run_case(case, want_requests=True):
             else:
                 lean_ok = False          # membership changes and rejected configuration changes: not in the model
         # callback recordings from the snapshot point on
-        rC = [r[b:] for r, b in zip(recs(C), baseC)]
-        rK = [r[b:] for r, b in zip(recs(K), baseK)]
+        rC = [m.__dict__.get('rec', [])[b:] for m, b in zip(Cms, baseC)]
+        rK = [m.__dict__.get('rec', [])[b:] for m, b in zip(Kms, baseK)]
+        if rC == rK:
+            # … including the models that were removed on the way
+            e1, e2 = ever_recs(C, K)
+            rC = [r[len(b):] for r, b in zip(e1, everC0)]
+            rK = [r[len(b):] for r, b in zip(e2, everK0)]
         if rC != rK and not diverged:
             fail('monitor', 'callback-recordings', 'prefix %d: callbacks seen by the copy %r, by the control %r' % (p, rC, rK))
         # (c) the original is untouched by what happened to the copy
@@ -1530,9 +1727,29 @@ def run_case(case, want_requests=True):
         if tabA2 != tabA:
             fail('monitor', 'copy-affects-original', 'prefix %d: tables of the original changed while the copy ran' % p)
         # lock probes
-        if case.get('lockprobe') and first_lock(A) is not None and first_lock(C) is not None and A.machine.events:
+        if case.get('lockprobe') and first_lock(A) is not None and first_lock(C) is not None and A.machine.events \
+                and A.machine.models and C.machine.models and K.machine.models:
             stats['lockprobes'] += 1
             lock_probes(case, A, C, K, p, fail)
+        # two restored machines (or a restored one and the original) active at once: callbacks of one fire events on the other
+        mode = case.get('fwd_at', {}).get(str(p))
+        if mode == 'sibling' and not diverged:
+            try:
+                C2, _prs = pickle_copy(case, src, root)
+                K2 = build(case)
+                for it in hist[:p]:
+                    apply_item(case, K2, it)
+                if fingerprint(K2) == fpA:
+                    forward_phase(case, p, C, K, C2, K2, 'another copy', fail, stats)
+                    sh = shared_reachable(C.machine, C2.machine)
+                    if sh:
+                        fail('monitor', 'shared-object', 'prefix %d: two copies of one machine: %s' % (p, sh))
+            except common.MachineryError:
+                raise
+            except Exception as e:    # noqa: BLE001
+                fail('monitor', 'cross-machine', 'prefix %d: forwarding between two copies: %s: %s' % (p, type(e).__name__, e))
+        elif mode == 'original' and not diverged and p == len(hist):
+            forward_phase(case, p, C, K, A, B, 'the original', fail, stats)
         copies.append((p, C, fingerprint(C), recs(C)))
         # correspondence with the Lean model
         if want_requests:
@@ -1580,6 +1797,98 @@ def stale_identity_keys(mach, foreign):
     for name, val in list(mach.__dict__.items()):
         walk(val, name, 0)
     return sorted(set(hits))
+
+
+def _atomic(x):
+    import enum
+    import types
+    return x is None or isinstance(x, (bool, int, float, str, bytes, type, enum.Enum, types.FunctionType,
+                                        types.BuiltinFunctionType, types.ModuleType))
+
+
+def _children(x):
+    """labelled successors of an object in the object graph, in a deterministic order; integer (identity) keys are
+    labelled by position"""
+    import functools
+    from collections import deque
+    out = []
+    if isinstance(x, functools.partial):
+        out.append(('func', x.func))
+        out += [('arg%d' % i, v) for i, v in enumerate(x.args)]
+        out += [('kw:' + k, v) for k, v in sorted((x.keywords or {}).items())]
+        return out
+    if inspect.ismethod(x):
+        return [('self', x.__self__), ('name:' + x.__name__, None)]
+    if isinstance(x, dict):
+        for i, (k, v) in enumerate(list(x.items())):
+            lab = 'k:' + k if isinstance(k, str) else '#%d' % i
+            if not _atomic(k):
+                out.append((lab + '/key', k))
+            out.append((lab, v))
+    elif isinstance(x, (list, tuple, deque)):
+        out += [('[%d]' % i, v) for i, v in enumerate(list(x))]
+    elif isinstance(x, (set, frozenset)):
+        return out
+    mod = type(x).__module__ or ''
+    if mod.split('.')[0] in ('transitions', 'harness') or mod == __name__:
+        d = getattr(x, '__dict__', None)
+        if isinstance(d, dict):
+            out += [('.' + k, v) for k, v in list(d.items())]
+    return out
+
+
+def alias_mismatch(a, c, limit=60000):
+    """the object graph of the copy is the object graph of the original up to identities: whenever two attribute paths
+    reach ONE object in the original they reach one object in the copy, and the other way round (paired walk; where the
+    local structure differs — regenerated graphs, re-wrapped partials — the walk does not descend)"""
+    amap, cmap, keep, out = {}, {}, [], []
+    stack = [(a, c, 'machine')]
+    n = 0
+    while stack and n < limit:
+        x, y, path = stack.pop()
+        if _atomic(x) or _atomic(y):
+            continue
+        n += 1
+        sx, sy = amap.get(id(x)), cmap.get(id(y))
+        if sx is not None or sy is not None:
+            if sx != sy:
+                out.append('%s is %s in the original but %s in the copy' % (path, sx or 'an object of its own', sy or 'an object of its own'))
+            continue
+        amap[id(x)] = path
+        cmap[id(y)] = path
+        keep.append((x, y))
+        kx, ky = _children(x), _children(y)
+        if [l for l, _ in kx] != [l for l, _ in ky]:
+            # different local structure: attributes of an instance are paired by name (their order is an accident of
+            # __init__ / __setstate__); anything else is not descended into
+            if not (hasattr(x, '__dict__') and type(x) is type(y)):
+                continue
+            dy = dict(ky)
+            kx = sorted((l, u) for l, u in kx if l in dy and l.startswith('.'))
+            ky = [(l, dy[l]) for l, _u in kx]
+        for (l, u), (_l, v) in reversed(list(zip(kx, ky))):
+            stack.append((u, v, path + '/' + l))
+    return out[:5]
+
+
+def reachable(root, limit=60000):
+    seen, keep, stack = {}, [], [(root, 'machine')]
+    while stack and len(seen) < limit:
+        x, path = stack.pop()
+        if _atomic(x) or id(x) in seen:
+            continue
+        seen[id(x)] = path
+        keep.append(x)
+        for l, u in _children(x):
+            stack.append((u, path + '/' + l))
+    return seen, keep
+
+
+def shared_reachable(a, c):
+    """no object (other than classes, functions, modules, immutable scalars) is reachable from both machines"""
+    ra, ka = reachable(a)
+    rc, kc = reachable(c)
+    return sorted('%s is the same object as %s of the other machine' % (rc[i], ra[i]) for i in rc if i in ra)[:4]
 
 
 def shared_objects(A, C):
@@ -1747,7 +2056,7 @@ def work(tier, seed, wid, cls_names, n):
                              ('self_model', str(any(m['kind'] == 'self' for m in case['models']))),
                              ('ctx_mode', case['ctx_mode'])):
                 ex.stats[key][val] = ex.stats[key].get(val, 0) + 1
-            for key in ('snapshots', 'cont_steps', 'moved', 'exceptions', 'lockprobes', 'lean_steps', 'control_mismatch', 'pokes',
+            for key in ('snapshots', 'cont_steps', 'moved', 'exceptions', 'lockprobes', 'lean_steps', 'control_mismatch', 'pokes', 'forwarded',
                         'midevent_callback', 'midevent_concurrent', 'midevent_lean', 'midevent_skipped'):
                 ex.stats['steps'][key] = ex.stats['steps'].get(key, 0) + st.get(key, 0)
             ex.traces_validated += st['snapshots']
@@ -1914,7 +2223,9 @@ class C15(runner.Check):
             'add_transition/add_model/remove_model, snapshot by pickle at EVERY prefix (root of the pickle: the machine, or '
             '- 45% - one of its models alone / the rotated list of models / (model, machine), for every model position; '
             '1-3 pickle generations, copy of copy), each followed by a random '
-            'continuation of 1-6 items on the copy and on a fresh control; all 12 predefined classes in equal shares, '
+            'continuation of 1-6 items (triggers, may, add_states/add_transition, membership operations, dispatch; in a '
+            'fifth of the cases callbacks forward events to ANOTHER restored copy / the original, or queue an event for the '
+            'peer and remove it) on the copy and on a fresh control; all 12 predefined classes in equal shares, '
             '40% through MachineFactory.get_predefined; non-trivial = at least two snapshots and one executed transition '
             'in a continuation; distinct = different case description')
     trusted = ('hand-written model lean/Model/Pickle.lean tied to /repo by comparing real table contents (before, after '
